@@ -62,7 +62,7 @@ def _cases(draw):
     for _ in range(3):
         cats = draw(st.lists(st.sampled_from(pool), min_size=1, max_size=4, unique=True))
         variants.append({"cats": sorted(cats), "split": draw(st.lists(st.integers(1, n - 1), min_size=1, max_size=2, unique=True)),
-                         "output_mult": draw(st.sampled_from([2, 3])), "sched": draw(st.lists(st.integers(0, 11), min_size=3, max_size=8)),
+                         "output_mult": draw(st.sampled_from([2, 3, 1.5, 2.5])), "sched": draw(st.lists(st.integers(0, 11), min_size=3, max_size=8)),
                          "salt": draw(st.integers(1, 10**6)), "drop_add": draw(st.integers(0, 2)), "remove": draw(st.integers(1, nt - 1)), "policy": draw(st.sampled_from(["MyopicNaiveGreedyDecision", "RandomDecision"]))})
     return {"start": iso(t0), "dt": dt, "n": n, "model": model, "filter_model": draw(st.sampled_from(["two_body", "special_perturbations"])), "adds": adds, "integrator": draw(st.sampled_from(["RK45", "DOP853"])), "targets": targets,
             "events": events, "variants": variants}
@@ -116,7 +116,7 @@ def _config(c, v=None):
         fm = "special_perturbations" if fm == "two_body" else "two_body"
     return kit.scenario_config(t0, t0 + timedelta(seconds=(n + 1) * dt), dt, [eng], events=evs, model=c["model"], filter_model=fm,
                                integrator=c["integrator"], truth_only="truth_only" in cats, noise=noise, seq_filter=seq,
-                               output_dt=dt * v["output_mult"] if "output" in cats else dt,
+                               output_dt=int(dt * v["output_mult"]) if "output" in cats else dt,
                                geopotential={"model": "egm96.txt", "degree": 4, "order": 4}, perturbations={"third_bodies": ["sun", "moon"]})
 
 
